@@ -41,59 +41,68 @@ impl<R: Res, T> SelPop<R> for T where T: Population<Individual = Ind<R>> + AsRef
 /// borrowed iterator is lazy (its lower size hint is 0, it is not an `ExactSizeIterator`, so the crate's
 /// blanket `Population` impl does not apply) and `size()` is implemented by hand.
 #[derive(Clone, Debug)]
-pub struct Padded<R: Res> {
-    pub store: Vec<Ind<R>>,
+pub struct PaddedVec<T> {
+    pub store: Vec<T>,
     pub live: usize,
 }
 
-impl<R: Res> Default for Padded<R> {
+impl<T> Default for PaddedVec<T> {
     fn default() -> Self {
         Self { store: Vec::new(), live: 0 }
     }
 }
 
-impl<R: Res> Padded<R> {
-    /// `extra` = how many individuals of the store lie beyond the live prefix (copies of the first ones
-    /// with other ids, so that a selector reaching them returns a non-member)
+impl<T> PaddedVec<T> {
+    /// `extras` lie in the backing store behind the live prefix and are not part of the population
     #[must_use]
-    pub fn new(live: Vec<Ind<R>>, extra: usize) -> Self {
+    pub fn with_extras(live: Vec<T>, extras: impl IntoIterator<Item = T>) -> Self {
         let n = live.len();
         let mut store = live;
-        for k in 0..extra.min(n.max(1)) {
-            if let Some(first) = store.get(k % n.max(1)).cloned() {
-                let mut c = first;
-                c.genome = 1_000_000 + k as u32;
-                store.push(c);
-            }
-        }
+        store.extend(extras);
         Self { store, live: n }
     }
 }
 
-impl<R: Res> Population for Padded<R> {
-    type Individual = Ind<R>;
+impl<T> Population for PaddedVec<T> {
+    type Individual = T;
     fn size(&self) -> usize {
         self.live
     }
 }
 
-impl<R: Res> AsRef<[Ind<R>]> for Padded<R> {
-    fn as_ref(&self) -> &[Ind<R>] {
+impl<T> AsRef<[T]> for PaddedVec<T> {
+    fn as_ref(&self) -> &[T] {
         &self.store[..self.live]
     }
 }
 
-impl<'a, R: Res> IntoIterator for &'a Padded<R> {
-    type Item = &'a Ind<R>;
-    type IntoIter = std::iter::Filter<std::iter::Take<std::slice::Iter<'a, Ind<R>>>, fn(&&'a Ind<R>) -> bool>;
+impl<'a, T> IntoIterator for &'a PaddedVec<T> {
+    type Item = &'a T;
+    type IntoIter = std::iter::Filter<std::iter::Take<std::slice::Iter<'a, T>>, fn(&&'a T) -> bool>;
     fn into_iter(self) -> Self::IntoIter {
         fn keep<T>(_: &T) -> bool {
             true
         }
-        self.store.iter().take(self.live).filter(keep::<&'a Ind<R>> as fn(&&'a Ind<R>) -> bool)
+        self.store.iter().take(self.live).filter(keep::<&'a T> as fn(&&'a T) -> bool)
     }
 }
 
+pub type Padded<R> = PaddedVec<Ind<R>>;
+
+/// `extra` = how many individuals of the store lie beyond the live prefix (copies of the first ones
+/// with other ids, so that a selector reaching them returns a non-member)
+#[must_use]
+pub fn padded<R: Res>(live: Vec<Ind<R>>, extra: usize) -> Padded<R> {
+    let n = live.len();
+    let extras: Vec<Ind<R>> = (0..extra.min(n))
+        .map(|k| {
+            let mut c = live[k % n].clone();
+            c.genome = 1_000_000 + k as u32;
+            c
+        })
+        .collect();
+    PaddedVec::with_extras(live, extras)
+}
 
 #[derive(Clone, Debug, Serialize, Deserialize, PartialEq)]
 pub enum Spec {
